@@ -297,6 +297,74 @@ fn srv_cases(tier: Tier) -> Vec<SrvCase> {
 }
 
 // ---------------------------------------------------------------------------------------------
+// the same negotiation when the server sits behind the grpc-web layer
+
+#[derive(Clone, Debug)]
+struct WebCase {
+    send: Vec<Enc>,
+    offer: Option<Vec<u8>>,
+    text: bool,
+}
+
+fn web_body(c: &WebCase, ch: &Chooser) -> Outcome {
+    use tower_layer::Layer;
+    let script = Script { initial_md: vec![], msgs: vec![RESP_MSG.to_vec()], end: None, handler_err: false, bidi: BidiMode::ReadAll, disable_compression: false };
+    let (mut server, log) = new_server(script, ch, false);
+    for e in &c.send {
+        server = server.send_compressed(tonic_enc(*e));
+    }
+    let mut svc = tonic_web::GrpcWebLayer::new().layer(server);
+    let frame = wire::encode_frame(0, &REQ_MSG);
+    let (ct, body) = if c.text { ("application/grpc-web-text", crate::oracle::b64::encode(&frame, true).into_bytes()) } else { ("application/grpc-web+proto", frame) };
+    let mut b = http::Request::builder().method(http::Method::POST).uri(Shape::Unary.path()).version(http::Version::HTTP_11).header("content-type", ct).header("accept", ct);
+    if let Some(v) = &c.offer {
+        b = b.header("grpc-accept-encoding", HeaderValue::from_bytes(v).unwrap());
+    }
+    let req = b.body(ScriptBody::new(body, None, Chunking::Fixed(vec![]), ch)).unwrap();
+    let resp = match spin_block_on(svc.call(req), 100_000) {
+        Ok(Ok(r)) => r,
+        _ => {
+            let mut o = Outcome::new("STALLED");
+            o.violate("stall", "grpc-web call did not complete");
+            return o;
+        }
+    };
+    let (parts, rbody) = resp.into_parts();
+    let rc = collect_body(rbody, 100_000);
+    let log = log.lock().unwrap().clone();
+    let raw = rc.bytes();
+    let bytes = if c.text { crate::oracle::b64::decode_concat(&raw).unwrap_or_default() } else { raw };
+    let mut o = Outcome::new(format!("hdr[{}] body={} handler_calls={}", fmt_headers(&parts.headers), hex(&bytes), log.calls));
+    o.nontrivial = !c.send.is_empty();
+    if log.calls != 1 {
+        o.violate("web-handler-calls", format!("{} handler calls", log.calls));
+        return o;
+    }
+    let (frames, _) = wire::parse_frames(&bytes, &[0, 1, 0x80]);
+    let announced = parts.headers.get("grpc-encoding").map(|v| v.as_bytes().to_vec());
+    match announced {
+        Some(v) if v != b"identity" => match std::str::from_utf8(&v).ok().and_then(Enc::from_name) {
+            None => o.violate("web-response-encoding-unknown", format!("{:?}", String::from_utf8_lossy(&v))),
+            Some(e) => {
+                if !c.send.contains(&e) {
+                    o.violate("web-response-encoding-not-configured", format!("announces {} with send set {{{}}}", e.name(), names(&c.send)));
+                }
+                let offered = c.offer.as_ref().map(|v| tokens_liberal(v)).unwrap_or_default();
+                if !offered.iter().any(|t| t == e.name()) {
+                    o.violate("web-response-encoding-not-offered", format!("a grpc-web request offering {:?} was answered with grpc-encoding {}", c.offer.as_ref().map(|v| String::from_utf8_lossy(v).to_string()), e.name()));
+                }
+            }
+        },
+        _ => {
+            if frames.iter().any(|f| f.flag == 1) {
+                o.violate("web-response-flag-without-encoding", "a compressed-flagged frame without announced encoding");
+            }
+        }
+    }
+    o
+}
+
+// ---------------------------------------------------------------------------------------------
 // client side
 
 #[derive(Clone, Debug)]
@@ -517,6 +585,23 @@ pub fn property(tier: Tier) -> Property {
         cli_body,
     )
     .mins(500, 20, 200);
+    let mut wcases = vec![];
+    for send in ordered_subsets() {
+        for offer in [None, Some(b"identity".to_vec()), Some(b"zstd".to_vec()), Some(b"gzip".to_vec()), Some(b"deflate,gzip".to_vec()), Some(b"br".to_vec())] {
+            for text in [false, true] {
+                wcases.push(WebCase { send: send.clone(), offer: offer.clone(), text });
+            }
+        }
+    }
+    let web = Section::new(
+        "server-behind-grpc-web",
+        Config::default(),
+        "cases: the generated server behind GrpcWebLayer with every ordered send subset (16) x grpc-web (binary / text) unary requests whose grpc-accept-encoding is absent / identity / zstd / gzip / deflate,gzip / br; oracle: an announced response encoding must be in the send set AND offered by the client itself (the layer must not negotiate on its behalf); no flag-1 frame without announcement. Non-trivial = some send encoding configured.",
+        wcases,
+        |c: &WebCase| format!("send={{{}}} offer={:?} text={}", names(&c.send), c.offer.as_ref().map(|v| String::from_utf8_lossy(v).to_string()), c.text),
+        web_body,
+    )
+    .mins(100, 4, 50);
     Property {
         id: "C05",
         level: "exploration",
@@ -525,7 +610,7 @@ pub fn property(tier: Tier) -> Property {
             "token matching uses the liberal reading (optional whitespace, ASCII case-insensitive) so that a stricter implementation never alarms".into(),
             "whether an eligible encoding must be used is left open (the statement only restricts when compression may be used)".into(),
         ],
-        sections: vec![srv, cli],
+        sections: vec![srv, cli, web],
         extra: Default::default(),
     }
 }
